@@ -356,8 +356,15 @@ class Prop:
         inp = payload['failure']['input']
         if 'reader_op' in inp:
             return None          # regenerated from the recorded seed by the generic replay
-        meta = [(inp['class'], inp['via'], inp['expected'], inp)]
-        self.evaluate(ctx, [inp['op']], meta, corr=False)
+        # (the recorded assignment follows the field table of the tree it was generated on: fields the class does not
+        # have on this tree are left out)
+        import attr
+        have = {f.name for f in attr.fields(gen.concrete_classes()[inp['class']])} | {'type', 'msg_type'}
+        parts = inp['op'].split(' ')
+        parts[-1] = ';'.join(kv for kv in parts[-1].split(';') if kv.split('=')[0] in have)
+        exp = {k: v for k, v in inp['expected'].items() if k in have}
+        meta = [(inp['class'], inp['via'], exp, dict(inp, op=' '.join(parts), expected=exp))]
+        self.evaluate(ctx, [' '.join(parts)], meta, corr=False)
         return not ctx.failures
 
 
